@@ -1473,7 +1473,7 @@ pub fn c05() -> Check {
     Check {
         id: "C05",
         level: "exploration",
-        rule: "formed clusters of 3..=6 (quick) / 3..=10 (thorough) renewable instances with notify_down_members and announce-to-down (num_members >= n) are partitioned (side sizes 1..n-1 cycled by case index, members of the sides seeded; every 5th case isolates a single member: both ways, inbound only or outbound only), held until every cross pair is mutually Down (premise, else inconclusive), healed at a seeded instant. Oracle: full mutual view under current identities within 4A+(4n+4) periods; told-down instances report Rejoin with a winning identity, never Defunct, then Active. Distinct by (n, shape, A, heal offset). A third of the cases with latencies up to 0.9 rtt, half with the ordinary periodic announce alongside. 'repartition': two partitions in a row with remove_down_after chosen so that the forget-timers of the first round fire while the second partition is on; convergence is required after both heals.",
+        rule: "formed clusters of 3..=6 (quick) / 3..=10 (thorough) renewable instances with notify_down_members and announce-to-down (num_members >= n) are partitioned (side sizes 1..n-1 cycled by case index, members of the sides seeded; every 5th case isolates a single member: both ways, inbound only or outbound only), held until every cross pair is mutually Down (premise, else inconclusive), healed at a seeded instant. Oracle: full mutual view under current identities within 4A+(4n+4) periods; told-down instances report Rejoin with a winning identity, never Defunct, then Active. Distinct by (n, shape, A, heal offset). A third of the cases with latencies up to 0.9 rtt, half with the ordinary periodic announce alongside. 'repartition': two partitions in a row with remove_down_after chosen so that the forget-timers of the first round fire while the second partition is on; convergence is required after both heals. Announce-to-down period also longer than the time to declare a peer down (2n+6 periods); suspicion timeout (2n+1) or 2..4 periods; probe_period 3 or 5/3 x rtt. 'lockstep': members started at the same instant, symmetric splits, announce-to-down period of 2n+4..2n+15 periods. 'stock': exactly the parameters of Config::new_lan(n) (announce-to-down every 65 periods to 2 members), convergence within 12 announce-to-down periods.",
         assumptions: &["announce-to-down num_members >= n so that every Down record is announced to each period (with fewer, which record is picked is random and no finite bound is deterministic)"],
         required: &["partitions_healed", "instances_renewed", "split_cases", "asymmetric_cases"],
         workloads: vec![
